@@ -69,11 +69,12 @@ Proof. exact frag_end_to_end. Qed.
 Print Assumptions C01_string_level_filter_free.
 
 (* ... and for queries WITH FILTERS nested to any depth n (the tower of FilterParse.v: existence tests,
-   comparisons between singular queries and literals, !, parentheses, &&, ||): the text of the query goes
+   comparisons between singular queries, literals and calls of length/count/value, match/search with a literal
+   pattern as tests, !, parentheses, &&, ||): the text of the query goes
    through the generated grammar, parser.rs, Filter::process and the comparison code, and what comes back is
    exactly the RFC 9535 nodelist with multiplicity, each node the one at its location in the caller's document *)
 Theorem C01_string_level_with_filters : forall n (q : list (gseg (SelT n))) (d : json),
-  Forall (gseg_ok (SelT n) (sokT n)) q -> Forall (gseg_good (SelT n) (sgoodT n)) q -> wf_json d = true ->
+  Forall (gseg_ok (SelT n) (sokT n)) q -> Forall (gseg_good (SelT n) (sgoodT lit_arg n)) q -> wf_json d = true ->
   let ast := segments_of_list (map (gseg_ast (SelT n) (sastT n)) q) in
   exists ps,
     api_with_path (36%N :: gsegs_text (SelT n) (stextT n) q) d = Some (map (fun p => (inner p, path p)) ps)
